@@ -16,7 +16,7 @@ from engines.polyid import terms as R
 from engines.polyid.build import dump_mir
 from engines.polyid.interp import Interp, Agg, Cell, Ref, IntV, MirError, short_type
 from engines.polyid.prove import Ideal, prove_zero, factor_nonvanishing, Z3_VERSION
-from engines.polyid.curves import models, Affine, Edwards, Weierstrass, JacobiQuartic
+from engines.polyid.curves import models, Affine, Edwards, Weierstrass, JacobiQuartic, GLS254
 from engines.polyid import replay as RP
 
 MIR = None
@@ -44,8 +44,12 @@ GROUPS = {
     "jq255s": dict(model="jq255s", module="jq255s", wrap=False,
                    affine=("affine_ext", "PointAffineExtended", "set_add_affine_extended",
                            "set_sub_affine_extended"), xd="cut", state=["X", "W", "J"]),
+    "gls254": dict(model="gls254", module="gls254", wrap=False,
+                   affine=("gls_affine", "PointAffine", "set_add_affine", "set_sub_affine"),
+                   xd="cut", state=["X", "T", "Z", "Y"]),
 }
 QUICK_GROUPS = list(GROUPS)
+XDOUBLE_N = [1, 2, 3]
 MUL_SMALL_N = list(range(0, 17)) + [31, 32, 33, 255, 2 ** 32 + 1, 2 ** 63, 2 ** 64 - 1]
 
 
@@ -71,6 +75,9 @@ class G:
         if sorted(self.decl) != sorted(self.model.coords):
             raise Machinery("%s::Point has fields %r, the model expects %r"
                             % (self.inner_mod, self.decl, self.model.coords))
+
+    def interp(self, **kw):
+        return Interp(MIR, char2=self.model.char2, **kw)
 
     def point(self, fields):
         by = dict(zip(self.model.coords, fields))
@@ -105,11 +112,23 @@ def order_key(model):
             return ({"y": 1, "x": 2}.get(c0, 5), n)
         if fam == "jq":
             return ({"e": 1, "u": 2}.get(c0, 5), n)
+        if fam == "gls":
+            if n in ("u", "sb"):
+                return (8, n)
+            if n in ("qY",):
+                return (1, n)
+            if n in ("qT",):
+                return (2, n)
+            return ({"s": 1}.get(c0, 5), n)
         return ({"x": 1, "y": 2}.get(c0, 5), n)
     return key
 
 
 def make_ideal(model, hyps, terms_):
+    if model.char2:
+        hyps = list(hyps) + list(model.const_hyps)
+        syms = R.symbols(list(hyps) + list(terms_))
+        return Ideal(hyps, sorted(syms, key=order_key(model)), char2=True)
     syms = R.symbols(list(hyps) + list(terms_))
     units = []
     if model.units:
@@ -153,8 +172,11 @@ class Acc:
                 return True
             self.fails.append("%s: identically zero" % label)
             return False
-        res, desc = factor_nonvanishing(term, make_ideal(model, [], [term] + nz), nz, Z3_TIMEOUT_MS)
-        if not res.ok and hyps:
+        if model.char2:
+            res, desc = factor_nonvanishing(term, make_ideal(model, hyps, [term] + nz), nz, Z3_TIMEOUT_MS)
+        else:
+            res, desc = factor_nonvanishing(term, make_ideal(model, [], [term] + nz), nz, Z3_TIMEOUT_MS)
+        if not res.ok and hyps and not model.char2:
             ideal = make_ideal(model, hyps, [term] + nz)
             ideal.units = []
             ideal._ring = None
@@ -220,7 +242,7 @@ def neutral_affines(model, tag):
         return [model.fixed(tag, 0, 1, "neutral")]
     if isinstance(model, JacobiQuartic):
         return [model.fixed(tag, -1, 0, "neutral"), model.fixed(tag, 1, 0, "neutral+")]
-    return [model.neutral(tag)]
+    return [model.neutral(tag)]       # Weierstrass, GLS254
 
 
 def binop_cases(model):
@@ -259,6 +281,8 @@ def rhs_value(g, opkind, A2):
         return g.aff_struct("PointAffine", {"x": x, "y": y})
     if opkind == "affine_ext":
         return g.aff_struct("PointAffineExtended", {"e": x, "u": y, "t": y * y})
+    if opkind == "gls_affine":
+        return g.aff_struct("PointAffine", {"scaled_x": x, "scaled_s": y})
     raise Machinery(opkind)
 
 
@@ -267,6 +291,8 @@ def check_expected(acc, g, out, A1, A2, sub, hyps, rz_neutral=False, F2=None):
     model = g.model
     if isinstance(model, Weierstrass):
         return check_expected_w(acc, g, out, A1, A2, sub, hyps, F2)
+    if isinstance(model, GLS254):
+        return check_expected_gls(acc, g, out, A1, A2, sub, hyps)
     Q = model.neg(A2) if sub else A2.xy
     rat = model.law(A1.xy, Q)
     for lab, t in model.represents(out, rat):
@@ -274,6 +300,40 @@ def check_expected(acc, g, out, A1, A2, sub, hyps, rz_neutral=False, F2=None):
     acc.zero("on-curve", model.oncurve(out), model, hyps)
     for lab, t, nz in model.nondeg(out, rat, [A1, A2]):
         acc.nonvanishing(lab, t, model, hyps, nz)
+    acc.trusted.extend(model.trusted)
+
+
+def gls_nz(model, ops, extra=()):
+    return [model.sb] + [A.z for A in ops if A.z is not R.ONE] + list(extra)
+
+
+def check_expected_gls(acc, g, out, A1, A2, sub, hyps):
+    model = g.model
+    case = acc.hint["case"]
+    Q = model.neg(A2) if sub else A2.xy
+    if A1.neutral and A2.neutral:
+        rel = model.rel_neutral(out)
+        nz = gls_nz(model, [A1, A2])
+    elif A1.neutral:
+        B = Affine(Q, z=A2.z)
+        rel = model.proportional(out, model.embed(B))
+        nz = gls_nz(model, [A1, A2])
+    elif A2.neutral:
+        rel = model.proportional(out, model.embed(A1))
+        nz = gls_nz(model, [A1, A2])
+    elif case == "generic":
+        rel = model.rel_add(out, A1.xy, Q)
+        nz = gls_nz(model, [A1, A2], [A1.xy[0] * A2.xy[0] + 1])
+    elif (case == "P=Q") != bool(sub):
+        rel = model.rel_double(out, A1.xy)
+        nz = gls_nz(model, [A1, A2], [A1.xy[0] + 1])
+    else:
+        rel = model.rel_neutral(out)
+        nz = gls_nz(model, [A1, A2], [A1.xy[0] + 1])
+    for lab, t in rel:
+        acc.zero(lab, t, model, hyps)
+    acc.zero("on-curve", model.oncurve(out), model, hyps)
+    acc.nonvanishing("Z", out[2], model, hyps, nz)
     acc.trusted.extend(model.trusted)
 
 
@@ -329,7 +389,7 @@ def task_binop(gname, fname, sub, opkind):
     for case, A1, A2 in cases:
         if opkind != "point":
             A2 = unit_z(A2)
-        it = Interp(MIR)
+        it = g.interp()
         item = g.fn(it, fname)
         c1 = Cell(g.point(model.embed(A1)))
         rhs = rhs_value(g, opkind, A2)
@@ -352,7 +412,7 @@ def task_binop(gname, fname, sub, opkind):
         A1, A2 = model.generic("1"), model.generic("2")
         if opkind != "point":
             A2 = unit_z(A2)
-        it = Interp(MIR)
+        it = g.interp()
         item = g.fn(it, fname)
         c1 = Cell(g.point(model.embed(A1)))
         args = [Ref(c1), Ref(Cell(rhs_value(g, opkind, A2)))]
@@ -375,7 +435,7 @@ def task_binop(gname, fname, sub, opkind):
             # rz = 0xFFFFFFFF: the affine operand is the neutral, (x, y) arbitrary
             x2, y2 = R.sym("x2"), R.sym("y2")
             for case, A1 in (("Q=neutral(rz)", model.generic("1")), ("both neutral(rz)", model.neutral("1"))):
-                it = Interp(MIR)
+                it = g.interp()
                 item = g.fn(it, fname)
                 F1 = model.embed(A1)
                 c1 = Cell(g.point(F1))
@@ -435,6 +495,20 @@ def decide_atoms(out, nzsyms):
 def check_double_expected(acc, g, out, A, hyps, k=1):
     """out represents [2^k] A"""
     model = g.model
+    if isinstance(model, GLS254):
+        if A.neutral:
+            rel = model.rel_neutral(out)
+            nz = gls_nz(model, [A])
+        else:
+            need(k == 1, "gls254 direct multi-doubling oracle not used")
+            rel = model.rel_double(out, A.xy)
+            nz = gls_nz(model, [A], [A.xy[0] + 1])
+        for lab, t in rel:
+            acc.zero(lab, t, model, hyps)
+        acc.zero("on-curve", model.oncurve(out), model, hyps)
+        acc.nonvanishing("Z", out[2], model, hyps, nz)
+        acc.trusted.extend(model.trusted)
+        return
     if isinstance(model, Weierstrass):
         if A.neutral:
             for lab, t in model.is_neutral(out):
@@ -471,7 +545,7 @@ def task_double(gname):
     model = g.model
     obs, consts = [], {}
     for case, A in unary_cases(model):
-        it = Interp(MIR)
+        it = g.interp()
         item = g.fn(it, "set_double")
         c1 = Cell(g.point(model.embed(A)))
         it.run(item, [Ref(c1)])
@@ -492,7 +566,7 @@ def task_neg(gname):
     model = g.model
     obs = []
     for case, A in unary_cases(model)[:2]:
-        it = Interp(MIR)
+        it = g.interp()
         item = g.fn(it, "set_neg")
         F = model.embed(A)
         c1 = Cell(g.point(F))
@@ -527,7 +601,7 @@ def task_neg(gname):
 # xdouble
 
 def run_xdouble(g, fields, n, hook=None):
-    it = Interp(MIR, loop_hook=hook)
+    it = g.interp(loop_hook=hook)
     item = g.fn(it, "set_xdouble")
     c1 = Cell(g.point(fields))
     it.run(item, [Ref(c1), IntV(n, 32)])
@@ -535,7 +609,7 @@ def run_xdouble(g, fields, n, hook=None):
 
 
 def run_double(g, fields):
-    it = Interp(MIR)
+    it = g.interp()
     item = g.fn(it, "set_double")
     c1 = Cell(g.point(fields))
     it.run(item, [Ref(c1)])
@@ -587,7 +661,7 @@ def task_xdouble(gname, n):
         acc = Acc(name, sorted(fns),
                   "set_xdouble(P, %d) computes exactly the coordinates of set_double applied %d times "
                   "(for arbitrary coordinate values); with the set_double obligations this gives [2^%d]P" % (n, n, n),
-                  hint, bounds="none: polynomial identity over Z[X,Y,Z,T]; n = %d (n <= 3 checked)" % n)
+                  hint, bounds="none: polynomial identity over Z[X,Y,Z,T]; n = %d" % n)
         for lab, o_, r_ in zip(model.coords, out, ref):
             if o_ is r_:
                 acc.nchecks += 1
@@ -609,7 +683,7 @@ def xdouble_cut(g, n, name, hint):
       (C)  exit(body(s)) ~ set_double(exit(s)) when J(s) = 0, and
            Z(set_double(exit(s))) = K * Z(exit(body(s)))   (non-degeneracy)
       (K)  e0 + m = n   (m = loop iterations executed for this n)."""
-    from engines.polyid.prove import _poly_to_term
+    from engines.polyid.prove import _poly_to_term, _lift2
     model = g.model
     A = model.generic("1")
     names = g.d["state"]
@@ -627,8 +701,7 @@ def xdouble_cut(g, n, name, hint):
         s_, e_ = rng.fields
         Ref(it_ref.cell, it_ref.path + (0,)).set(IntV(e_.v, e_.bits, e_.signed))
 
-    free = [R.sym("s" + nm) for nm in names]
-    fmap = {"s" + nm: None for nm in names}
+    free = [R.sym("q" + nm) for nm in names]
     st = {}
 
     def hookA(interp, fr, k, it_ref):
@@ -639,6 +712,11 @@ def xdouble_cut(g, n, name, hint):
     fns |= set(fn_names(it))
     need("entry" in st, "loop hook did not fire in %s" % name)
     outA, undecA = decide_atoms(g.fields(val), {"z1"})
+    def hookA1(interp, fr, k, it_ref):
+        if mine(fr) and k == 1:
+            force_exit(it_ref)
+    itA1, valA1 = run_xdouble(g, model.embed(A), 3, hookA1)
+    outA1, _ = decide_atoms(g.fields(valA1), {"z1"})
     cnt = {"k": 0}
 
     def hookB(interp, fr, k, it_ref):
@@ -679,20 +757,36 @@ def xdouble_cut(g, n, name, hint):
               "inductive, exit(body(s)) ~ set_double(exit(s)) for every state with J(s) = 0, e0 + m = %d" % (n, n),
               hint,
               bounds="identities over Q[internal state variables] modulo the state invariant; loop count executed "
-                     "concretely for n = %d (n <= 3 checked)" % n)
-    # the invariant J: curve equation of exit(s) with monomial factors in the state removed
+                     "concretely for n = %d" % n)
+    # state invariants: the curve equation (and validity relations) of exit(s),
+    # with their monomial content removed.  Any polynomials work as long as the
+    # lemmas below hold; this is only how they are found.
+    cands = [("curve", model.oncurve(outD))]
+    if hasattr(model, "validity"):
+        cands += model.validity(outD)
+    hypJ = []
+    for lab, raw_t in cands:
+        idl = make_ideal(model, [], [raw_t])
+        pr = idl.poly(raw_t)
+        if model.char2:
+            pr = _lift2(idl._to2(pr, idl._ring2[0]), idl.ring()[0])
+        if pr == 0:
+            continue
+        mons = [mon for mon, _ in pr.terms()]
+        mn = tuple(min(mo[i] for mo in mons) for i in range(len(mons[0])))
+        Rg0 = idl.ring()[0]
+        stripped = Rg0.zero
+        g0 = 0
+        for mon, cf in pr.terms():
+            g0 = math.gcd(g0, abs(int(cf))) if cf.denominator == 1 else 1
+        for mon, cf in pr.terms():
+            stripped += Rg0.term_new(tuple(e_ - m_ for e_, m_ in zip(mon, mn)), cf / g0 if g0 > 1 else cf)
+        if len(stripped.terms()) < 2:
+            continue
+        hypJ.append(_poly_to_term(stripped, idl.order))
+        acc.notes.append("J_%s = %s" % (lab, str(stripped.as_expr())[:200]))
+    need(hypJ, "no state invariant found for %s" % name)
     raw = model.oncurve(outD)
-    ideal0 = make_ideal(model, [], [raw])
-    praw = ideal0.poly(raw)
-    cst, facs = praw.factor_list()
-    Jp = None
-    for f_, e_ in facs:
-        if len(f_.terms()) > 1:
-            Jp = f_ if Jp is None else Jp * f_ ** e_
-    need(Jp is not None, "no state invariant found for %s" % name)
-    J = _poly_to_term(Jp, ideal0.order)
-    acc.notes.append("J = %s" % Jp.as_expr())
-    hypJ = [J]
     # (E)
     e0 = None
     for cand, refo in ((1, outF), (0, model.embed(A))):
@@ -702,26 +796,46 @@ def xdouble_cut(g, n, name, hint):
             for lab, t in model.same_element(outA, refo):
                 acc.zero("E:" + lab, t, model, A.hyps)
             break
+    baseA = outA
     if e0 is None:
-        acc.fail("exit(entry(P)) is neither P nor 2P")
+        # the exit path may include a fixed translation (GLS254 adds N on exit):
+        # take one loop iteration as the base case, exit(body(entry(P))) ~ 2P
+        if all(prove_zero(t, make_ideal(model, A.hyps, [t]), Z3_TIMEOUT_MS).ok
+               for _, t in model.same_element(outA1, outF)):
+            e0 = 0
+            baseA = outA1
+            for lab, t in model.same_element(outA1, outF):
+                acc.zero("E1:" + lab, t, model, A.hyps)
+            acc.notes.append("base case taken after one loop iteration")
+            if m < 1:
+                acc.fail("no loop iteration for n = %d" % n)
+    outA = baseA
+    if e0 is None:
+        acc.fail("exit(entry(P)) is neither P nor 2P, and exit(body(entry(P))) is not 2P")
     else:
         acc.zero("I0:on-curve", model.oncurve(outA), model, A.hyps)
         nzA = list(A.nz)
-        if not isinstance(model, Weierstrass):
+        if isinstance(model, GLS254):
+            nzA = gls_nz(model, [A], [A.xy[0] + 1])
+        elif not isinstance(model, Weierstrass):
             nzA += [d for _, d in model.law(A.xy, A.xy)]
         acc.nonvanishing("E:Z", outA[2], model, A.hyps, nzA)
         if e0 + m != n:
             acc.fail("doubling count: entry %d + %d loop iterations != n = %d" % (e0, m, n))
     # (I0), (I1), (V)
-    sub_e = dict(zip(["s" + nm for nm in names], st["entry"]))
-    sub_b = dict(zip(["s" + nm for nm in names], st["body"]))
-    acc.zero("I0:J(entry)", R.substitute([J], sub_e)[0], model, A.hyps)
-    acc.zero("I1:J(body(s))", R.substitute([J], sub_b)[0], model, hypJ)
+    sub_e = dict(zip(["q" + nm for nm in names], st["entry"]))
+    sub_b = dict(zip(["q" + nm for nm in names], st["body"]))
+    for i, J in enumerate(hypJ):
+        acc.zero("I0:J%d(entry)" % i, R.substitute([J], sub_e)[0], model, A.hyps)
+        acc.zero("I1:J%d(body(s))" % i, R.substitute([J], sub_b)[0], model, hypJ)
     acc.zero("V:exit(s) on curve", raw, model, hypJ)
+    if hasattr(model, "validity"):
+        for lab, t in model.validity(outD):
+            acc.zero("V:" + lab, t, model, hypJ)
     # (C)
     for lab, t in model.same_element(outC, outD2):
         acc.zero("C:" + lab, t, model, hypJ)
-    if model.family != "weierstrass":
+    if model.family == "jq":
         vi = model.represents(outC, model.law((R.ONE, R.ZERO), (R.ONE, R.ZERO)))[-1]
         acc.zero("C:" + vi[0], vi[1], model, hypJ)
     ok = False
@@ -730,11 +844,16 @@ def xdouble_cut(g, n, name, hint):
         zc = ideal.poly(outC[2])
         zd = ideal.poly(outD2[2])
         Rg, gens, K, H = ideal.ring()
-        q, r = zd.div([zc] + H)
+        if model.char2:
+            R2, H2 = ideal._ring2
+            q2, r2 = ideal._to2(zd, R2).div([ideal._to2(zc, R2)] + H2)
+            q, r = [_lift2(q2[0], Rg)], _lift2(r2, Rg)
+        else:
+            q, r = zd.div([zc] + H)
         if r == 0:
             Kt = _poly_to_term(q[0], ideal.order)
             ok = acc.zero("C:Z(dbl(exit s)) = K*Z(exit(body s))", outD2[2] - Kt * outC[2], model, hypJ)
-            acc.notes.append("K = %s" % q[0].as_expr())
+            acc.notes.append("K = %s" % str(q[0].as_expr())[:200])
     except Exception as e:  # noqa
         acc.unknowns.append("non-degeneracy certificate search failed: %s" % e)
     if not ok and not acc.fails and not acc.unknowns:
@@ -809,7 +928,7 @@ def task_mul_small(gname):
     for n in MUL_SMALL_N:
         counter = {}
         ch, kh = group_hooks(g, counter)
-        it = Interp(MIR, call_hook=ch, const_hook=kh)
+        it = g.interp(call_hook=ch, const_hook=kh)
         item = g.fn(it, "set_mul_small")
         P = Agg("struct", [GroupV(1)], g.module + "::Point") if g.wrap else GroupV(1)
         c1 = Cell(P)
@@ -823,7 +942,9 @@ def task_mul_small(gname):
               "set_mul_small(P, n), executed with set_add/set_xdouble/set_neg abstracted to the group law "
               "(their own obligations), yields the coefficient n",
               dict(group=gname, func="set_mul_small", case="generic", n=0),
-              bounds="n in {0..16, 31, 32, 33, 255, 2^32+1, 2^63, 2^64-1}; abstract group Z*P")
+              bounds="n in {0..%d and %d larger values up to 2^64-1}; abstract group Z*P"
+                     % (max(i for i in range(200) if i in MUL_SMALL_N and all(j in MUL_SMALL_N for j in range(i))),
+                        len([x for x in MUL_SMALL_N if x > 200])))
     import z3
     t0 = time.time()
     s = z3.Solver()
@@ -858,7 +979,7 @@ def task_operators(gname):
     ref = {}
     fns = set()
     for meth, args in (("set_add", 2), ("set_sub", 2), ("set_neg", 1)):
-        it = Interp(MIR)
+        it = g.interp()
         c1 = Cell(g.point(F1))
         a = [Ref(c1)] + ([Ref(Cell(g.point(F2)))] if args == 2 else [])
         it.run(g.fn(it, meth), a)
@@ -888,7 +1009,7 @@ def task_operators(gname):
             for n in (0, 1, 2, 5, 16):
                 counter = {}
                 ch, kh = group_hooks(g, counter)
-                it = Interp(MIR, call_hook=ch, const_hook=kh)
+                it = g.interp(call_hook=ch, const_hook=kh)
                 P = Agg("struct", [GroupV(1)], pt) if g.wrap else GroupV(1)
                 cell = Cell(P)
                 a = [(Ref(cell) if k == "ref" else (P if k == "val" else IntV(n, 64))) for k in kinds]
@@ -901,7 +1022,7 @@ def task_operators(gname):
                 if not isinstance(v, GroupV) or v.k != n:
                     acc.fail("%s(%s) with n=%d gives %r" % (meth, ",".join(kinds), n, v))
             continue
-        it = Interp(MIR)
+        it = g.interp()
         cells = [Cell(g.point(F1)), Cell(g.point(F2))]
         a = [(Ref(cl) if k == "ref" else cl.val) for k, cl in zip(kinds, cells)]
         rv = it.run((nm, which), a)
@@ -948,8 +1069,9 @@ def tasks_for(gname):
         opk, ty, fa, fs = d["affine"]
         ts.append(("binop", gname, fa, False, opk))
         ts.append(("binop", gname, fs, True, opk))
-    ts += [("double", gname), ("neg", gname), ("xdouble", gname, 1), ("xdouble", gname, 2),
-           ("xdouble", gname, 3), ("mul_small", gname), ("operators", gname)]
+    ts += [("double", gname), ("neg", gname)]
+    ts += [("xdouble", gname, n) for n in XDOUBLE_N]
+    ts += [("mul_small", gname), ("operators", gname)]
     return ts
 
 
@@ -959,6 +1081,7 @@ def tasks_for(gname):
 ENC = {c: 32 for c in RP.CURVES}
 ENC["ed448"] = 56
 ENC["decaf448"] = 56
+ENC["gls254"] = 32
 
 
 def concrete_instances(g, hint, rng, count=6):
@@ -997,7 +1120,7 @@ def native_requests(g, hint, rng, count=6):
     reqs = []
     p = m.p
     for P, Q in concrete_instances(g, hint, rng, count):
-        z1, z2 = rng.randrange(1, p), rng.randrange(1, p)
+        z1, z2 = m.c_scalar(rng), m.c_scalar(rng)
         F1 = m.c_embed(P, z1)
         n = hint.get("n", 0)
         if func in ("set_add", "set_sub"):
@@ -1012,7 +1135,12 @@ def native_requests(g, hint, rng, count=6):
                 Q2 = m.c_rand(rng)
                 reqs.append(((g.name, func, 0xFFFFFFFF, F1 + list(Q2)), P))
                 continue
-            extra = list(Q) + ([Q[1] * Q[1] % p] if "extended" in func else [])
+            if m.char2:
+                from engines.polyid.curves import F254
+                isb = F254.inv(m.cSB)
+                extra = [F254.mul(Q[0], isb), F254.mul(Q[1], isb)]
+            else:
+                extra = list(Q) + ([Q[1] * Q[1] % p] if "extended" in func else [])
             if hint.get("n") == 0xFFFFFFFF:
                 reqs.append(((g.name, func, 0xFFFFFFFF, F1 + extra), P))
             else:
@@ -1084,18 +1212,65 @@ def _aff(P):
 
 # --------------------------------------------------------------------------
 
+def eval_gf2(t, consts):
+    """evaluate a characteristic-2 constant term in GF(2^254) (packed int)"""
+    from engines.polyid.curves import F254
+    memo = {}
+    for x in R.topo([t]):
+        a = [memo[y.id] for y in x.args]
+        if x.op == "sym":
+            if x.aux == "u":
+                r = F254.pack(0, 1)
+            elif x.aux == "sb":
+                r = (1 << 27) | 1
+            else:
+                r = consts[x.aux]
+        elif x.op == "const":
+            r = int(x.aux) & 1
+        elif x.op in ("add", "sub"):
+            r = a[0] ^ a[1]
+        elif x.op == "mul":
+            r = F254.mul(a[0], a[1])
+        elif x.op == "neg":
+            r = a[0]
+        else:
+            raise ValueError(x.op)
+        memo[x.id] = r
+    return memo[t.id]
+
+
+def library_base(m):
+    """coordinates of the library's Point::BASE as concrete field values"""
+    it = Interp(MIR, char2=m.char2)
+    base = it.const_value("%s::Point::BASE" % m.module)
+    decl = m.struct_fields(MIR, "Point")
+    by = dict(zip(decl, base.fields))
+    vals = []
+    for cn in m.coords:
+        t = by[cn]
+        if m.char2:
+            vals.append(eval_gf2(t, it.named_consts))
+        elif R.is_const(t):
+            vals.append(int(t.aux) % m.p)
+        else:
+            vals.append(it.named_consts[t.aux] % m.p)
+    return vals
+
+
 def ground_facts(consts, obs):
     facts = []
 
     def fact(name, okv):
         facts.append({"fact": name, "ok": bool(okv)})
     from engines.polyid.curves import legendre
+    used = {GROUPS[o.hint["group"]]["model"] for o in obs if getattr(o, "hint", None)}
     for m in MODELS.values():
+        if m.name not in used:
+            continue
         for sym_, text, pred in getattr(m, "const_relations", []):
             if sym_ in consts:
                 fact("%s: %s" % (m.name, text), pred(consts[sym_], m.p))
-            else:
-                fact("%s: constant %s not seen in executed code" % (m.name, sym_), False)
+            # a constant that no executed function reads needs no relation
         if isinstance(m, Edwards):
             fact("%s: d is a non-square mod p" % m.name, legendre(m.dv, m.p) == -1)
             fact("%s: a is a square mod p" % m.name, legendre(m.a, m.p) == 1)
@@ -1103,39 +1278,42 @@ def ground_facts(consts, obs):
             fact("%s: b' = a^2-4b is a non-square mod p" % m.name, legendre(m.bp, m.p) == -1)
         # the library's base point satisfies the model's curve equation
         try:
-            it = Interp(MIR)
-            base = it.const_value("%s::Point::BASE" % m.module)
-            decl = m.struct_fields(MIR, "Point")
-            by = dict(zip(decl, base.fields))
-            vals = []
-            for cn in m.coords:
-                t = by[cn]
-                if R.is_const(t):
-                    vals.append(int(t.aux) % m.p)
-                else:
-                    vals.append(it.named_consts[t.aux] % m.p)
-            P, valid = m.c_decode(vals)
+            P, valid = m.c_decode(library_base(m))
             fact("%s: Point::BASE is a valid point of the model curve" % m.name, valid and P is not None)
         except Exception as e:  # noqa
             fact("%s: Point::BASE evaluation (%s)" % (m.name, e), False)
+        if isinstance(m, GLS254):
+            from engines.polyid.curves import F254, f127_mul
+            fact("gls254: sqrt(b)^2 = b = 1 + z^54 in GF(2^127)", f127_mul(m.cSB, m.cSB) == m.cB)
+            uu = F254.mul(m.cU, m.cU)
+            fact("gls254: u^2 + u + 1 = 0", uu ^ m.cU ^ 1 == 0)
+            for lab, t, hy in m.spec_lemmas():
+                res = prove_zero(t, make_ideal(m, hy, [t]), Z3_TIMEOUT_MS)
+                fact("gls254 spec lemma (z3 %s): %s on the curve" % (res.status, lab), res.ok)
     # certificate denominators / multipliers invertible
     for o in obs:
         d = getattr(o, "denoms", 1)
         if d != 1:
             g = GROUPS.get(o.hint["group"])
             p = MODELS[g["model"]].p
+            if MODELS[g["model"]].char2:
+                continue
             if math.gcd(d, p) != 1:
                 fact("%s: certificate denominator %d invertible mod p" % (o.name, d), False)
     dens = sorted({getattr(o, "denoms", 1) for o in obs})
     fact("certificate denominators %r are coprime to every field prime" % dens[:12],
-         all(math.gcd(d, m.p) == 1 for d in dens for m in MODELS.values()))
+         all(math.gcd(d, m.p) == 1 for d in dens for m in MODELS.values() if not m.char2))
     return facts
 
 
 def run(tier, only=None):
-    global MIR, MODELS, Z3_TIMEOUT_MS
+    global MIR, MODELS, Z3_TIMEOUT_MS, XDOUBLE_N, MUL_SMALL_N
     t0 = time.time()
     Z3_TIMEOUT_MS = 30000 if tier == "quick" else 300000
+    if tier != "quick":
+        XDOUBLE_N[:] = [1, 2, 3, 4, 5]
+        MUL_SMALL_N[:] = sorted(set(list(range(0, 130)) + MUL_SMALL_N + [2 ** k - 1 for k in range(8, 65, 8)]
+                                    + [2 ** k + 1 for k in range(8, 64, 8)]))
     MODELS = models()
     only = list(only or [])
     groups = [gname for gname in GROUPS if gname in only] or list(GROUPS)
@@ -1152,12 +1330,20 @@ def run(tier, only=None):
         th.join()
         return finish("C03", tier, [], t0, machinery_error="MIR dump failed: %s" % str(e)[:800])
     log("C03: MIR dump %.1fs, %d items" % (mir_secs, len(MIR.items)))
+    try:
+        gm = MODELS["gls254"]
+        gm.base = gm.c_decode(library_base(gm))[0]
+    except Exception as e:  # noqa
+        log("C03: GLS254 base point not available: %s" % e)
     tasks = []
     for gname in groups:
         for t in tasks_for(gname):
-            if fsel and not any(f in str(t) for f in fsel):
+            if fsel and not any(f in str(t) or f.replace("set_", "") in str(t) for f in fsel):
                 continue
             tasks.append(t)
+    if not tasks:
+        th.join()
+        return finish("C03", tier, [], t0, machinery_error="no task selected by --only %r" % (only,))
     res = pmap(work, tasks, nproc=NCPU, timeout=200 if tier == "quick" else 1500)
     for t, (stt, val) in zip(tasks, res):
         if stt == "ok":
@@ -1235,14 +1421,18 @@ def run(tier, only=None):
     if bad and not merr:
         # a failed ground fact invalidates the stub it supports: report, do not alarm
         for o in obs:
-            if o.verdict == "discharged" and any(f["fact"].startswith(GROUPS[o.hint["group"]]["model"])
-                                                 for f in bad if o.hint):
-                o.unknown("ground fact failed: %s" % bad[0]["fact"], o.solver, o.seconds, o.queries)
+            if o.verdict != "discharged" or not getattr(o, "hint", None):
+                continue
+            mine = [f for f in bad if f["fact"].startswith(GROUPS[o.hint["group"]]["model"] + ":")
+                    or f["fact"].startswith("certificate")]
+            if mine:
+                o.unknown("ground fact failed: %s" % mine[0]["fact"], o.solver, o.seconds, o.queries)
     trusted = sorted({t for o in obs for t in getattr(o, "trusted", [])})
     return finish(
         "C03", tier, obs, t0,
         functions_encoded=sorted({f for o in obs for f in o.functions}),
-        bounds={"operands": BOUNDS, "set_xdouble": "n <= 3 executed; loop-body lemma holds for any n",
+        bounds={"operands": BOUNDS,
+                "set_xdouble": "n in %r executed; loop-body lemma holds for any n" % (XDOUBLE_N,),
                 "set_mul_small": "n in %r" % (MUL_SMALL_N,),
                 "configuration": "default features, 64-bit backend, MIR of the dev profile"},
         stubs={"field operations (add/sub/mul/square/neg/half/mulK/mul_small) -> exact ring operations": "C01",
@@ -1252,10 +1442,48 @@ def run(tier, only=None):
                      "build on random operands on every run)",
                      "affine group laws in engines/polyid/curves.py (validated natively; jq255 through the "
                      "double-odd Weierstrass curve)"] + trusted,
-        outside=["GLS254 (binary field, (x,s) coordinates): not modelled by this check",
-                 "equals/isneutral/encode (C06)", "set_mul_small for n outside the listed set",
+        outside=["equals/isneutral/encode (C06)", "set_mul_small for n outside the listed set",
                  "set_xdouble n > 3 (composition argument only)"],
         ground_facts={"checked": len(facts) + native["checked"], "failed": len(bad) + native["failed"],
                       "facts": facts, "native_spec_validation": native},
         extra={"mir_seconds": round(mir_secs, 1), "replay_build_seconds": round(rp.secs, 1)},
         machinery_error=merr)
+
+
+def replay(path):
+    """re-run the native request stored in a replay file against the current
+    /repo working tree and compare with the stored expectation"""
+    import json
+    global MODELS
+    with open(path) as fh:
+        d = json.load(fh)
+    model = d["obligation"].get("model") or {}
+    req = model.get("request")
+    if not req:
+        print("replay: no native request in %s" % path)
+        return 2
+    MODELS = models()
+    rp = RP.Replay([req["curve"]])
+    if not rp.build():
+        print("replay: harness build failed: %s" % (rp.error or "")[-400:])
+        return 2
+    r = rp.run([(req["curve"], req["func"], req["n"], [int(v, 16) for v in req["coords"]])], ENC)[0]
+    m = MODELS[GROUPS[req["curve"]]["model"]]
+    if r[0] == "panic":
+        print("REPRODUCED: native panic")
+        return 1
+    if r[0] != "ok":
+        print("replay: native run failed: %r" % (r,))
+        return 2
+    got, valid = m.c_decode(r[1])
+    exp = model.get("expected_affine")
+    exp = None if exp is None else tuple(int(v, 16) for v in exp)
+    same = (got is None and exp is None) or (got is not None and exp is not None and m.c_same(got, exp))
+    print("native output:", [hex(v) for v in r[1]])
+    print("native affine:", _aff(got), "valid representation:", valid)
+    print("expected     :", _aff(exp))
+    if valid and same:
+        print("NOT REPRODUCED: the current tree returns the expected group element")
+        return 0
+    print("REPRODUCED: property=C03 key=%s" % model.get("key"))
+    return 1
